@@ -2,6 +2,7 @@ SPECIFICATION SortSpec
 CONSTANTS
   Dedupe = TRUE
   N = 4
+  Full = TRUE
   NSort = 3
   SortAllNames = TRUE
 INVARIANT CycleIffCyclic
